@@ -15,6 +15,7 @@ package main
 // (proto.Unmarshal of the bytes as grpc-go does, then LogsServer.Export).
 
 import (
+	"bufio"
 	"bytes"
 	"compress/gzip"
 	"context"
@@ -22,10 +23,15 @@ import (
 	"encoding/hex"
 	"encoding/json"
 	"fmt"
+	"io"
 	"net/http"
 	"net/http/httptest"
+	"os"
+	"os/exec"
+	"strconv"
 	"strings"
 	"sync"
+	"syscall"
 	"time"
 
 	"github.com/honeycombio/refinery/collect"
@@ -459,17 +465,195 @@ func genPartB(r *kit.Rng, maxLen int) kit.Case {
 
 // ---------------------------------------------------------------- runner
 
-type runnerB struct{ w *worldB }
+// Requests are executed in a long-lived worker process (`vh_nocrash reqworker`): some failures a
+// request can provoke are not panics and cannot be recovered in process (Go's "fatal error: out of
+// memory" for an absurd allocation, "fatal error: stack overflow").  The parent hands the worker one
+// op line at a time; when the worker dies the op's observation is `fatal <class> <site>` and a new
+// worker is started for the next op.
+
+type worker struct {
+	cmd    *exec.Cmd
+	in     io.WriteCloser
+	out    *bufio.Reader
+	errBuf *tailBuffer
+	lines  chan string
+}
+
+type tailBuffer struct {
+	mu sync.Mutex
+	b  []byte
+}
+
+func (t *tailBuffer) Write(p []byte) (int, error) {
+	t.mu.Lock()
+	defer t.mu.Unlock()
+	if len(t.b) < 1<<16 {
+		t.b = append(t.b, p...)
+	}
+	return len(p), nil
+}
+func (t *tailBuffer) String() string { t.mu.Lock(); defer t.mu.Unlock(); return string(t.b) }
+
+var theWorker *worker
+
+func startWorker() *worker {
+	cmd := exec.Command(os.Args[0], "reqworker")
+	in, _ := cmd.StdinPipe()
+	outp, _ := cmd.StdoutPipe()
+	w := &worker{cmd: cmd, in: in, errBuf: &tailBuffer{}, lines: make(chan string, 1)}
+	cmd.Stderr = w.errBuf
+	if err := cmd.Start(); err != nil {
+		return nil
+	}
+	w.out = bufio.NewReaderSize(outp, 1<<16)
+	go func() {
+		for {
+			l, err := w.out.ReadString('\n')
+			if err != nil {
+				close(w.lines)
+				return
+			}
+			w.lines <- strings.TrimRight(l, "\n")
+		}
+	}()
+	return w
+}
+
+func (w *worker) kill() {
+	w.in.Close()
+	w.cmd.Process.Kill()
+	w.cmd.Wait()
+}
+
+// fatalClass reads the dead worker's stderr: the kind of failure and where (see hangSite)
+func fatalClass(stderr string) string {
+	class := "other"
+	switch {
+	case strings.Contains(stderr, "out of memory") || strings.Contains(stderr, "cannot allocate"):
+		class = "out-of-memory"
+	case strings.Contains(stderr, "stack overflow") || strings.Contains(stderr, "goroutine stack exceeds"):
+		class = "stack-overflow"
+	case strings.Contains(stderr, "concurrent map"):
+		class = "concurrent-map"
+	case strings.HasPrefix(stderr, "panic:") || strings.Contains(stderr, "\npanic:"):
+		class = "panic"
+	}
+	return class + " " + hangSite(stderr)
+}
+
+// hangSite: in the SIGQUIT dump, the goroutine that serves the request (created by main.serve):
+// its topmost frame outside the Go runtime, and its first frame inside Refinery
+func hangSite(dump string) string {
+	top, ref := "unknown", "unknown"
+	for _, blk := range strings.Split(dump, "\n\n") {
+		if !strings.Contains(blk, "main.serve.func1") {
+			continue
+		}
+		clean := func(l string) string {
+			if j := strings.LastIndex(l, "("); j > 0 {
+				l = l[:j]
+			}
+			l = strings.TrimPrefix(l, "github.com/")
+			return strings.NewReplacer("(*", "", ")", "").Replace(l)
+		}
+		for _, l := range strings.Split(blk, "\n") {
+			if l == "" || l[0] == '\t' || l[0] == ' ' || strings.HasPrefix(l, "goroutine ") {
+				continue
+			}
+			if strings.HasPrefix(l, "runtime.") || strings.HasPrefix(l, "internal/") || strings.HasPrefix(l, "main.") {
+				continue
+			}
+			if top == "unknown" {
+				top = clean(l)
+			}
+			if ref == "unknown" && strings.HasPrefix(l, "github.com/honeycombio/refinery/") {
+				ref = clean(strings.TrimPrefix(l, "github.com/honeycombio/refinery/"))
+			}
+		}
+		break
+	}
+	return kit.Enc(top) + " " + kit.Enc(ref)
+}
+
+type runnerB struct{}
 
 func (r *runnerB) Close() {}
 
-var reqTimeout = 10 * time.Second
+// per-request timeout (VERIF_REQ_TIMEOUT seconds; default 6)
+var reqTimeout = func() time.Duration {
+	if n, err := strconv.Atoi(os.Getenv("VERIF_REQ_TIMEOUT")); err == nil && n > 0 {
+		return time.Duration(n) * time.Second
+	}
+	return 6 * time.Second
+}()
 
 func (r *runnerB) Do(op []string) (string, bool) {
 	if op[0] != "req" || len(op) < 2 {
 		return "bad-op", true
 	}
-	w := r.w
+	if theWorker == nil {
+		theWorker = startWorker()
+		if theWorker == nil {
+			return "worker-error", true
+		}
+	}
+	w := theWorker
+	if _, err := io.WriteString(w.in, strings.Join(op, " ")+"\n"); err != nil {
+		w.kill()
+		theWorker = nil
+		return "worker-error", true
+	}
+	select {
+	case l, ok := <-w.lines:
+		if !ok { // the worker died while serving this request
+			w.cmd.Wait()
+			theWorker = nil
+			return "fatal " + fatalClass(w.errBuf.String()), true
+		}
+		return l, true
+	case <-time.After(reqTimeout):
+		// ask the Go runtime of the worker for a goroutine dump (SIGQUIT), so that the report can say where it hangs
+		w.cmd.Process.Signal(syscall.SIGQUIT)
+		dead := make(chan struct{})
+		go func() { w.cmd.Wait(); close(dead) }()
+		select {
+		case <-dead:
+		case <-time.After(5 * time.Second):
+			w.cmd.Process.Kill()
+			<-dead
+		}
+		w.in.Close()
+		theWorker = nil
+		return "hang " + hangSite(w.errBuf.String()), true
+	}
+}
+
+// reqWorker: the child side
+func reqWorker() {
+	// safety net on a shared machine: an allocation a request talks the code into must fail rather than be served
+	var lim syscall.Rlimit
+	if syscall.Getrlimit(syscall.RLIMIT_AS, &lim) == nil {
+		lim.Cur = 3 << 30
+		if lim.Max != 0 && lim.Cur > lim.Max {
+			lim.Cur = lim.Max
+		}
+		syscall.Setrlimit(syscall.RLIMIT_AS, &lim)
+	}
+	w := getWorldB()
+	sc := bufio.NewScanner(os.Stdin)
+	sc.Buffer(make([]byte, 1<<20), 1<<28)
+	out := bufio.NewWriter(os.Stdout)
+	for sc.Scan() {
+		op := strings.Fields(sc.Text())
+		if len(op) == 0 {
+			continue
+		}
+		fmt.Fprintln(out, serve(w, op))
+		out.Flush()
+	}
+}
+
+func serve(w *worldB, op []string) string {
 	ep := op[1]
 	ct, ce, key := kit.Dec(kit.KV(op, "ct")), kit.Dec(kit.KV(op, "ce")), kit.KV(op, "key")
 	var body []byte
@@ -545,13 +729,7 @@ func (r *runnerB) Do(op []string) (string, bool) {
 			done <- result{"bad-op"}
 		}
 	}()
-	var obs string
-	select {
-	case res := <-done:
-		obs = res.obs
-	case <-time.After(reqTimeout):
-		obs = "hang"
-	}
+	obs := (<-done).obs // the parent process enforces the per-request timeout
 	drain(w.up.Events)
 	drain(w.peer.Events)
 	if c := w.log.take(); c != "" {
@@ -560,5 +738,5 @@ func (r *runnerB) Do(op []string) (string, bool) {
 		}
 		obs = "caught-panic " + kit.Enc(c) + " " + obs
 	}
-	return obs, true
+	return obs
 }
